@@ -15,6 +15,16 @@ from protocol_code_generator.util.docstring_utils import generate_docstring
 from protocol_code_generator.util.number_utils import try_parse_int
 
 
+def _int_literal(text):
+    """Python source for an integer given as XML text ("007" is 7; a leading zero is not valid Python)."""
+    return str(int(text))
+
+
+def _string_literal(text):
+    """Python source for a string given as XML text (quotes, backslashes and control characters escaped)."""
+    return '"' + text.encode("unicode_escape").decode("ascii").replace('"', '\\"') + '"'
+
+
 class FieldCodeGenerator:
     def __init__(
         self,
@@ -39,7 +49,11 @@ class FieldCodeGenerator:
         self._data = data
         self._name = name
         self._type_string = type_string
-        self._length_string = length_string
+        self._length_string = (
+            _int_literal(length_string)
+            if length_string is not None and length_string.isdigit()
+            else length_string
+        )
         self._padded = padded
         self._optional = optional
         self._hardcoded_value = hardcoded_value
@@ -226,9 +240,11 @@ class FieldCodeGenerator:
                 if self._optional:
                     expression = f'None if {self._name} is None else {expression}'
         elif isinstance(field_type, StringType):
-            expression = f'"{self._hardcoded_value}"'
+            expression = _string_literal(self._hardcoded_value)
         elif isinstance(field_type, BoolType):
             expression = "True" if self._hardcoded_value == "true" else "False"
+        elif isinstance(field_type, IntegerType):
+            expression = _int_literal(self._hardcoded_value)
         else:
             expression = self._hardcoded_value
 
@@ -432,7 +448,7 @@ class FieldCodeGenerator:
             type_ = self._get_type()
             if isinstance(type_, IntegerType):
                 if self._hardcoded_value.isdigit():
-                    return self._hardcoded_value
+                    return _int_literal(self._hardcoded_value)
                 raise RuntimeError(f'"{self._hardcoded_value}" is not a valid integer value.')
             elif isinstance(type_, BoolType):
                 if self._hardcoded_value == "false":
@@ -441,7 +457,7 @@ class FieldCodeGenerator:
                     return "1"
                 raise RuntimeError(f'"{self._hardcoded_value}" is not a valid bool value.')
             elif isinstance(type_, StringType):
-                return f'"{self._hardcoded_value}"'
+                return _string_literal(self._hardcoded_value)
             else:
                 raise AssertionError("Unhandled BasicType")
         else:
